@@ -11,7 +11,9 @@ LEVEL = "fault_enumeration"
 RULE = (
     "for every generated program (DAG, deterministic gated program, the DAG with groups nested to depth 1-3) EACH leaf "
     "callable (function nodes and gates, also inside nested graphs) is made the failing one in turn, plus sampled pairs "
-    "failing together; error_handling raise and continue; sync runner and async runner under a random completion "
+    "failing together; the injected exceptions are of several classes (plain Exception, subclasses of ValueError, "
+    "KeyError and RuntimeError, instances with an empty message); error_handling raise and continue (collected errors "
+    "also with an explicit selection naming outputs the failure prevents, under every on_missing policy); sync runner and async runner under a random completion "
     "order; and mapped forms: runner.map and a map_over nested-graph node where chosen items fail, raise and continue "
     "mode, several max_concurrency values. Oracle: identity (`is`) with the one pre-built exception object of the node "
     "that fails first in (step, node-list) order; FAILED values must contain every value completed in an earlier step "
@@ -29,6 +31,36 @@ THOROUGH_SHARDS = 12
 
 class Boom(Exception):
     pass
+
+
+class BoomValue(ValueError):
+    """A domain error deriving from a builtin the library itself raises and catches."""
+
+
+class BoomKey(KeyError):
+    pass
+
+
+class BoomRuntime(RuntimeError):
+    pass
+
+
+EXC_KINDS = ["Boom", "BoomValue", "BoomKey", "BoomRuntime", "BoomValue-empty", "Assertion-empty", "Boom"]
+
+
+def make_exc(kind, msg):
+    """Exceptions of several classes, some with an EMPTY message (str(e) == '')."""
+    if kind == "BoomValue":
+        return BoomValue(msg)
+    if kind == "BoomKey":
+        return BoomKey(msg)
+    if kind == "BoomRuntime":
+        return BoomRuntime(msg)
+    if kind == "BoomValue-empty":
+        return BoomValue()
+    if kind == "Assertion-empty":
+        return AssertionError()
+    return Boom(msg)
 
 
 def top_owner(spec, fid):
@@ -177,7 +209,9 @@ def inject_all(ctx, spec, inputs, label):
             combos.append(ctx.rng.sample(reached, 2))
     n = 0
     for combo in combos:
-        excs = {f: Boom(f"boom in {f}") for f in combo}
+        kind = ctx.rng.choice(EXC_KINDS)
+        ctx.obs["exc_kind:" + kind] += 1
+        excs = {f: make_exc(kind, f"boom in {f}") for f in combo}
         for mode in ("raise", "continue"):
             for runner in ("sync", "async"):
                 s = core.with_async(spec, runner == "async", ctx.rng)
@@ -185,11 +219,43 @@ def inject_all(ctx, spec, inputs, label):
                 o = core.execute(s, inputs, runner, sched=sched, fail=excs, error_handling=mode)
                 ctx.obs["faults_injected"] += 1
                 n += 1
-                case = {"spec": spec, "inputs": inputs, "failing": combo, "mode": mode, "runner": runner, "program": label}
+                case = {"spec": spec, "inputs": inputs, "failing": combo, "mode": mode, "runner": runner, "program": label, "exc_kind": kind}
                 if o.deadlock or o.inconclusive:
                     ctx.inconc(o.inconclusive or "deadlock under fault injection")
                     continue
                 check_failed_result(ctx, spec, inputs, combo, excs, o, f"{label}/{runner}/{mode}", case)
+                if mode == "continue" and len(combo) == 1 and ctx.rng.random() < 0.4:
+                    n += selected_failed(ctx, spec, inputs, combo, excs, s, runner, R0, f"{label}/{runner}/continue+select", case)
+    return n
+
+
+def selected_failed(ctx, spec, inputs, combo, excs, s, runner, R0, label, case):
+    """error_handling='continue' with an explicit selection that names outputs the failure prevents, under every
+    on_missing policy: still a FAILED result carrying the node's own exception (the policy is about completed runs)."""
+    first = expected_first(spec, combo, R0)
+    if first is None or spec.get("select"):
+        return 0
+    full = ref.visible_values(spec, R0)
+    names = sorted(full)
+    if not names:
+        return 0
+    n = 0
+    for pol in ("error", "warn", "ignore"):
+        sel = ctx.rng.sample(names, ctx.rng.randint(1, min(3, len(names))))
+        sched = rt.Sched(default="rand", rng=ctx.rng) if runner == "async" else None
+        o = core.execute(s, inputs, runner, sched=sched, fail=excs, error_handling="continue", select=sel, on_missing=pol)
+        ctx.obs["faults_injected"] += 1
+        ctx.obs["selected_failed_runs"] += 1
+        n += 1
+        c2 = {**case, "select": sel, "on_missing": pol}
+        if o.deadlock or o.inconclusive:
+            continue
+        if o.exc is not None:
+            ctx.violation("C11:continue-mode-raised", f"{label} select={sel} on_missing={pol}: errors are collected, yet the call raised {o.exc!r} instead of returning a FAILED result carrying {excs[first]!r}", c2)
+        elif o.status != "failed" or o.error is not excs[first]:
+            ctx.violation("C11:identity", f"{label} select={sel} on_missing={pol}: status {o.status}, error {o.error!r}; expected FAILED with the node's own exception object", c2)
+        elif any(k not in sel for k in (o.values or {})):
+            ctx.violation("C11:partial-undeclared", f"{label} select={sel}: FAILED result contains {sorted(set(o.values) - set(sel))} outside the selection", c2)
     return n
 
 
@@ -207,7 +273,8 @@ def map_faults(ctx, i):
     consumers = [ns for ns in inner["nodes"] if any(p["n"] == over for p in ns["params"])]
     victim = rng.choice(consumers)
     vfid = victim["fid"]
-    excs = {it: Boom(f"boom on {it}") for it in items}
+    mkind = rng.choice(EXC_KINDS)
+    excs = {it: make_exc(mkind, f"boom on {it}") for it in items}
     case = {"inner": inner, "over": over, "items": items, "bad": sorted(bad_items), "victim": vfid}
 
     first_bad = next(it for it in items if it in bad_items)
@@ -297,7 +364,7 @@ def run(ctx):
     if ctx.replay:
         c = ctx.replay["case"]
         if "spec" in c:
-            excs = {f: Boom(f"boom in {f}") for f in c["failing"]}
+            excs = {f: make_exc(c.get("exc_kind", "Boom"), f"boom in {f}") for f in c["failing"]}
             s = core.with_async(c["spec"], c["runner"] == "async", ctx.rng)
             o = core.execute(s, c["inputs"], c["runner"], fail=excs, error_handling=c["mode"])
             check_failed_result(ctx, c["spec"], c["inputs"], c["failing"], excs, o, "replay", c)
